@@ -138,7 +138,7 @@ pub fn run(args: &Args) -> i32 {
         }
     }
     f.flush().unwrap();
-    println!("{{\"backgrounds\":{},\"pairs\":{},\"runs\":{}}}", chosen.len(), pairs, runs);
+    println!("{{\"driver\":\"sweep\",\"episodes\":{},\"backgrounds\":{},\"pairs\":{},\"runs\":{},\"distinct_nontrivial\":{}}}", chosen.len(), chosen.len(), pairs, runs, runs);
     0
 }
 
@@ -231,6 +231,6 @@ pub fn parser_streams(args: &Args, r: &mut Rng) -> i32 {
         }
     }
     f.flush().unwrap();
-    println!("{{\"driver\":\"C03P\",\"episodes\":{},\"events\":{},\"panics\":0,\"chars\":{}}}", episodes, events, chars);
+    println!("{{\"driver\":\"C03P\",\"episodes\":{},\"events\":{},\"panics\":0,\"chars\":{},\"distinct_nontrivial\":{}}}", episodes, events, chars, events);
     0
 }
